@@ -143,6 +143,9 @@ pub enum Auth {
     Sha1WireLenFp(u8),
     /// the same mistake with MESSAGE-INTEGRITY-SHA256
     Sha256WireLenFp(u8),
+    /// MESSAGE-INTEGRITY-SHA256 under the key, truncated to (declared with) this many bytes, 0..=36:
+    /// valid for 16, 20, 24, 28, 32 (RFC 8489 14.6: at least 16 bytes, a multiple of 4), not valid otherwise
+    Sha256Len(u8, u8),
 }
 
 #[derive(Clone, Copy, Debug, Serialize, Deserialize, PartialEq, Eq, Hash, PartialOrd, Ord)]
@@ -315,6 +318,19 @@ pub fn response_wire(id: u8, class: u8, auth: Auth) -> Vec<u8> {
             wire::append_fp(&mut b);
         }
         Auth::Sha256Trunc(k) => wire::append_mi256(&mut b, &key_bytes(k), 16),
+        Auth::Sha256Len(k, n) => {
+            if n <= 32 {
+                wire::append_mi256(&mut b, &key_bytes(k), n as usize)
+            } else {
+                // longer than the hash: the 32 bytes of the HMAC followed by zeros
+                let off = b.len();
+                let mut pre = b.clone();
+                wire::set_len(&mut pre, off - 20 + 4 + (n as usize + 3) / 4 * 4);
+                let mut h = crate::refimpl::crypto::hmac_sha256(&key_bytes(k), &pre).to_vec();
+                h.resize(n as usize, 0);
+                wire::append_raw(&mut b, wire::MI256, &h);
+            }
+        }
         Auth::Sha256Flipped(k) => {
             wire::append_mi256(&mut b, &key_bytes(k), 32);
             let l = b.len();
